@@ -40,7 +40,7 @@ func runC09(r *kit.Run) {
 		}
 		c09Hook(r, i, r.Rng("hook", i))
 	}
-	nt := int64(r.Scale(60, 3000))
+	nt := int64(r.Scale(84, 3000))
 	for i := int64(0); i < nt && !r.Stopped(); i++ {
 		if !r.Mine(i) {
 			continue
@@ -144,8 +144,14 @@ func c09Fill(r *kit.Run, idx int64, rng *rand.Rand) {
 			}
 			last = cfg
 			h := newBrokerHarness(cfg)
-			_ = h.b.Subscribe(h.ctx) // nobody reads it
-			if !waitSubscribed(h, 1) {
+			nsubs := 1
+			if !idlePool {
+				nsubs = 2 + rng.IntN(5) // every undrained subscription has its own last free slot
+			}
+			for q := 0; q < nsubs; q++ {
+				_ = h.b.Subscribe(h.ctx) // nobody reads it
+			}
+			if !waitSubscribed(h, nsubs) {
 				inconclusive = "subscription was not registered"
 				h.cancel()
 				return
